@@ -1,9 +1,167 @@
 import Olla.Driver.Util
+import Olla.Model.Url
+import Olla.Spec.C16
+import Olla.Gen.Urls
 
 namespace Olla.Driver.C16
-open Lean Olla.Driver
+open Lean Olla.Driver Olla.Model.Url
+open Olla.Spec.C16 (hostFixed queryVerbatim underBase notAboveRoot plainBase plainRel plainPath placed)
 
-/-- placeholder until the C16 driver is written -/
-def main : IO Unit := pure ()
+/-- hex string → one `Char` per byte -/
+def bytesOf (j : Json) : Path := (unhex (jstr j)).map (fun b => Char.ofNat b.toNat)
+
+def hexDigit (n : Nat) : Char := if n < 10 then Char.ofNat (48 + n) else Char.ofNat (87 + n)
+def toHex (p : Path) : String := String.ofList (p.flatMap (fun c => [hexDigit (c.toNat / 16 % 16), hexDigit (c.toNat % 16)]))
+def show' (p : Path) : String := String.ofList (p.map (fun c => if c.toNat < 32 || c.toNat > 126 then '?' else c))
+
+def parseEp (j : Json) : Endpoint :=
+  { scheme := jstr (jget j "scheme"), host := jstr (jget j "host"), basePath := bytesOf (jget j "base_hex"), preserve := jbool (jget j "preserve") }
+
+def pathClass (p : Path) : String :=
+  let s := split p
+  let enc := p.contains '%'
+  (if s.contains dotdot then "dotdot" else if s.contains dot then "dot" else if containsEncodedDotDot p then "encdots" else "plain") ++ (if enc then "+pct" else "")
+
+def epClass (ep : Endpoint) : String :=
+  if usesPreserve ep then "preserve" else if ep.basePath == [] || ep.basePath == ['/'] then "nobase" else "replace"
+
+/-- the model's prediction for a resolved config URL: `none` = "returned pathOrURL / baseURL unchanged" -/
+def resolveModel (base : String) (p : Path) (baseParsed pParsed : Json) : Option (String × String × Path) :=
+  if base == "" then none
+  else if p == [] then none
+  else if jstr (jget pParsed "err") == "" && jbool (jget pParsed "abs") then none
+  else if jstr (jget baseParsed "err") != "" then none
+  else some (jstr (jget baseParsed "scheme"), jstr (jget baseParsed "host"), resolveURLPath (bytesOf (jget baseParsed "path_hex")) p)
+
+def handle (j : Json) : IO Unit := do
+  let case := jnat (jget j "case")
+  let kind := jstr (jget j "kind")
+  let impl := jget j "impl"
+  match kind with
+  | "lib" =>
+    let p := bytesOf (jget j "p_hex")
+    let b := bytesOf (jget j "b_hex")
+    let c := clean p
+    let jn := join2 b p
+    let un := pathUnescape p
+    let st := stripPrefix (bytesOf (jget j "full_hex")) (bytesOf (jget j "pre_hex"))
+    let ok := toHex c == jstr (jget impl "clean_hex") && toHex jn == jstr (jget impl "join_hex") &&
+      un.isSome == jbool (jget impl "unescape_ok") && (match un with | some d => toHex d == jstr (jget impl "unescape_hex") | none => true) &&
+      toHex st == jstr (jget impl "strip_hex")
+    emit case ok true ("lib." ++ pathClass p) "" "" (Json.mkObj [("clean", toJson (show' c)), ("join", toJson (show' jn)), ("strip", toJson (show' st))])
+  | "build" =>
+    let ep := parseEp (jget j "ep")
+    let req := bytesOf (jget j "req_path_hex")
+    let q := (jstr (jget j "query")).toList
+    let rp := bytesOf (jget j "route_prefix_hex")
+    let pp := bytesOf (jget j "proxy_prefix_hex")
+    let p1 := if rp == [] then req else stripPrefix req rp
+    let want := buildTarget active p1 q ep pp
+    let pan := jstr (jget impl "panic")
+    let got : Target := { scheme := jstr (jget impl "scheme"), host := jstr (jget impl "host"), path := bytesOf (jget impl "path_hex"), query := (jstr (jget impl "rawquery")).toList }
+    let w := jget impl "wire"
+    let wgot : Target := { scheme := jstr (jget w "scheme"), host := jstr (jget w "host"), path := bytesOf (jget w "path_hex"), query := (jstr (jget w "rawquery")).toList }
+    let werr := jstr (jget w "err")
+    let agree := pan == "" && got == want && jstr (jget impl "fragment") == "" && werr == "" &&
+      wgot == { want with path := rendered want.path, query := wireQuery activeQuery q } && jstr (jget w "req_host") == ep.host
+    -- the property, on what the implementation produced (the URL object and what the engines put on the wire)
+    let hostOk := hostFixed ep got && (werr != "" || hostFixed ep wgot)
+    let qOk := queryVerbatim q got
+    let wqOk := werr != "" || wgot.query == q
+    let tp := targetPath p1 pp
+    let contOk := if usesPreserve ep && plainBase ep.basePath then underBase ep.basePath got.path && (werr != "" || underBase ep.basePath wgot.path) else true
+    let rootOk := if !usesPreserve ep then notAboveRoot got.path && (werr != "" || notAboveRoot wgot.path) else true
+    let placedOk := if plainPath tp && (!usesPreserve ep || plainBase ep.basePath) then
+        placed (if usesPreserve ep then ep.basePath else []) tp got.path && (werr != "" || placed (if usesPreserve ep then ep.basePath else []) tp wgot.path) else true
+    let spec := pan == "" && hostOk && qOk && wqOk && contOk && rootOk && placedOk
+    let sig := if pan != "" then "buildtargeturl-panic" else if !hostOk then "target-host-changed" else if !qOk then "query-not-verbatim"
+      else if !contOk then "preserve-path-escape" else if !rootOk then "dotdot-forwarded" else if !placedOk then "path-not-remaining-path"
+      else if !wqOk then "query-fragment-truncated" else ""
+    let note := if spec then "" else
+      s!"request path {show' p1} query {String.ofList q} endpoint {ep.scheme}://{ep.host}{show' ep.basePath} preserve={ep.preserve} => {got.scheme}://{got.host}{show' got.path}?{String.ofList got.query}; on the wire {show' wgot.path}?{String.ofList wgot.query}"
+    emit case agree spec s!"build.{epClass ep}.{pathClass tp}" sig note
+      (Json.mkObj [("path", toJson (show' want.path)), ("path_hex", toJson (toHex want.path)), ("host", toJson want.host)])
+  | "resolve" =>
+    let base := jstr (jget j "base")
+    let p := bytesOf (jget j "p_hex")
+    let bp := jget j "base_parsed"
+    let out := jget impl "parsed"
+    match resolveModel base p bp (jget j "p_parsed") with
+    | none =>
+      let ok := if base == "" then jbool (jget impl "out_is_p") else if p == [] then jbool (jget impl "out_is_base") else jbool (jget impl "out_is_p")
+      emit case ok true "resolve.passthrough"
+    | some (sc, ho, pa) =>
+      let basePath := bytesOf (jget bp "path_hex")
+      let gotPath := bytesOf (jget out "path_hex")
+      let ok := jstr (jget out "err") == "" && jstr (jget out "scheme") == sc && jstr (jget out "host") == ho && gotPath == rendered pa
+      let applies := plainBase basePath && plainRel p
+      let spec := !applies || (jstr (jget out "scheme") == sc && jstr (jget out "host") == ho && underBase basePath gotPath)
+      emit case ok spec (if applies then "resolve.join.plain" else "resolve.join.dotted") (if spec then "" else "config-path-outside-base")
+        (if spec then "" else s!"{base} + {show' p} => {jstr (jget impl "out")}") (toJson (show' pa))
+  | "repo" =>
+    let bp := jget j "base_parsed"
+    let ty := jstr (jget j "type")
+    let basePath := bytesOf (jget bp "path_hex")
+    let err := jstr (jget impl "err")
+    if err != "" || jstr (jget bp "err") != "" then
+      emit case true true "repo.rejected"
+    else
+      let dflt := Olla.Gen.Urls.profilePaths.find? (fun r => r.1 == ty)
+      let one := fun (cfgHex : String) (cfgParsed : Json) (out : Json) (dfltPath : Option Path) =>
+        let cfgP : Path := (unhex cfgHex).map (fun b => Char.ofNat b.toNat)
+        let gotPath := bytesOf (jget out "path_hex")
+        let sameHost := jstr (jget out "scheme") == jstr (jget bp "scheme") && jstr (jget out "host") == jstr (jget bp "host")
+        let eff : Option Path := if cfgP != [] then some cfgP else dfltPath
+        match eff with
+        | none => (true, !sameHost || true, "unknown-default")   -- default path not tabulated for this type: nothing to compare
+        | some rel =>
+          if cfgP != [] && jstr (jget cfgParsed "err") == "" && jbool (jget cfgParsed "abs") then (true, true, "absolute")
+          else
+            let want := resolveURLPath basePath rel
+            let applies := plainBase basePath && plainRel rel
+            (sameHost && gotPath == rendered want, !applies || (sameHost && underBase basePath gotPath), if applies then "plain" else "dotted")
+      let (a1, s1, b1) := one (jstr (jget j "health_hex")) (jget j "health_parsed") (jget impl "health") (dflt.map (·.2.1))
+      let (a2, s2, b2) := one (jstr (jget j "model_hex")) (jget j "model_parsed") (jget impl "model") (dflt.map (·.2.2))
+      let objs := jbool (jget impl "health_obj_matches") && jbool (jget impl "model_obj_matches")
+      emit case (a1 && a2 && objs) (s1 && s2) s!"repo.{b1}.{b2}" (if s1 && s2 then "" else "config-path-outside-base")
+        (if s1 && s2 then "" else s!"endpoint {jstr (jget j "base")} type {ty}: health/model URL left the endpoint or its base path")
+  | "stack" =>
+    let ep := parseEp (jget j "ep")
+    let parsed := jget j "parsed"
+    let seen := jarr (jget impl "seen")
+    let hits := jnat (jget impl "decoy_hits")
+    let decoyOk := hits == 0
+    match seen with
+    | [] =>
+      -- rejected / redirected before the proxy (400, 301, 404): nothing was sent upstream
+      emit case true decoyOk "stack.not-forwarded" (if decoyOk then "" else "decoy-contacted") (if decoyOk then "" else s!"{jstr (jget j "target")} made olla open {hits} connection(s) to the decoy")
+    | [one] =>
+      let req := bytesOf (jget parsed "path_hex")
+      let q := (jstr (jget parsed "rawquery")).toList
+      let sp := handlerStripPrefix activeAlias (bytesOf (jget j "written_prefix_hex")) (bytesOf (jget j "strip_prefix_hex"))
+      let p1 := stripPrefix req sp
+      let want := buildTarget active p1 q ep Olla.Gen.Urls.proxyPrefixProduction
+      let gotPath := bytesOf (jget one "path_hex")
+      let gotQ := (jstr (jget one "rawquery")).toList
+      let agree := jstr (jget parsed "err") == "" && jstr (jget one "parse_err") == "" && gotPath == rendered want.path && gotQ == wireQuery activeQuery q
+      let contOk := if usesPreserve ep && plainBase ep.basePath then underBase ep.basePath gotPath else true
+      let rootOk := if !usesPreserve ep then notAboveRoot gotPath else true
+      let qOk := gotQ == q
+      -- "its path is the request's remaining path": what follows the route mount, when that is a plain path
+      let mount := bytesOf (jget j "route_prefix_hex")
+      let remaining : Path := if mount.isPrefixOf req then '/' :: req.drop mount.length else req
+      let placedOk := if plainPath remaining && (!usesPreserve ep || plainBase ep.basePath) then
+          placed (if usesPreserve ep then ep.basePath else []) remaining gotPath else true
+      let spec := decoyOk && contOk && rootOk && qOk && placedOk
+      let sig := if !decoyOk then "decoy-contacted" else if !contOk then "preserve-path-escape" else if !rootOk then "dotdot-forwarded"
+        else if !placedOk then "route-prefix-not-stripped" else if !qOk then "query-fragment-truncated" else ""
+      emit case agree spec s!"stack.{jstr (jget j "engine")}.{epClass ep}.{pathClass p1}" sig
+        (if spec then "" else s!"{jstr (jget j "target")} reached the backend (base {show' ep.basePath}, preserve={ep.preserve}) as {jstr (jget one "line")}")
+        (Json.mkObj [("path", toJson (show' want.path))])
+    | _ => emit case false decoyOk "stack.multiple-requests" (if decoyOk then "" else "decoy-contacted") s!"backend saw {seen.length} requests"
+  | "stack-error" => emit case false true "stack.start-failed" "" (jstr (jget impl "err"))
+  | _ => emit case false true "unknown-kind" "" s!"unknown kind {kind}"
+
+def main : IO Unit := do forLines (← IO.getStdin) handle
 
 end Olla.Driver.C16
